@@ -219,6 +219,21 @@ pub fn run(path: &str, out_dir: &str, n: i64) -> Result<Value, String> {
             rep.samples.push(json!({"program": program}));
         }
     }
+    // ---- a fixed scenario outside the model: a CSE array that reads a member of another CSE array
+    {
+        let mut um = fresh()?;
+        um.set_user_array_formula(0, 2, 4, 2, 2, "=E5:F6*2")?;
+        um.set_user_array_formula(0, 5, 4, 2, 1, "={1,2;3,4}")?;
+        let once = um.get_formatted_cell_value(0, 2, 4).unwrap_or_default();
+        um.evaluate();
+        let twice = um.get_formatted_cell_value(0, 2, 4).unwrap_or_default();
+        rep.n_checks += 1;
+        if once != twice {
+            rep.mismatch("C07", "second-evaluation-differs", "array-reads-array",
+                json!({"program": [{"cell": "Sheet1!D2:E3", "text": "{=E5:F6*2}"}, {"cell": "Sheet1!D5:E5", "text": "{={1,2;3,4}}"}, {"evaluate": true}]}),
+                format!("D2 shows {once} after the second array is entered and {twice} after one more evaluation (E5 = 2)"));
+        }
+    }
     let mut out = rep.finish();
     out["variants_rebuilt"] = json!(variants_run);
     Ok(out)
